@@ -76,13 +76,13 @@ var h8Inputs = map[string][]string{
 	"multi": {"SELECT 1;\nSELECT 2;\nSELECT a FROM", ";; SELECT 1", "SELECT a FROM t LIMIT 10, 20"},
 }
 
-var h8Kinds = []string{"tokenize", "parse", "parse-ctx", "parse-pos", "parse-recovery", "parse-cancelled", "opt-strict", "opt-mysql", "tok-mysql", "reset-p", "reset-t", "release-p", "pool-p", "pool-t", "tokenize-ctx", "multi-recovery-release", "multi-recovery-release-twice"}
+var h8Kinds = []string{"tokenize", "parse", "parse-ctx", "parse-pos", "parse-recovery", "parse-cancelled", "opt-strict", "opt-mysql", "tok-mysql", "reset-p", "reset-t", "release-p", "pool-p", "pool-t", "tokenize-ctx", "multi-recovery-release", "multi-recovery-release-twice", "parse-ctx-cancel-after"}
 
 func h8RandomOp(r *rand.Rand) h8Op {
 	k := h8Kinds[r.Intn(len(h8Kinds))]
 	op := h8Op{Kind: k}
 	switch k {
-	case "tokenize", "parse", "parse-ctx", "parse-pos", "parse-recovery", "parse-cancelled", "tokenize-ctx", "multi-recovery-release", "multi-recovery-release-twice":
+	case "tokenize", "parse", "parse-ctx", "parse-pos", "parse-recovery", "parse-cancelled", "tokenize-ctx", "multi-recovery-release", "multi-recovery-release-twice", "parse-ctx-cancel-after":
 		classes := []string{"valid", "invalid", "invalid", "deep", "multi"}
 		c := classes[r.Intn(len(classes))]
 		op.Arg = h8Inputs[c][r.Intn(len(h8Inputs[c]))]
@@ -118,6 +118,13 @@ func (s *h8State) apply(op h8Op) {
 	case "parse-ctx":
 		if t := tokenize(); t != nil {
 			_, _ = s.p.ParseContextFromModelTokens(context.Background(), t)
+		}
+	case "parse-ctx-cancel-after":
+		// the usual "ctx, cancel := WithCancel(...); defer cancel()" caller: the context is cancelled once the call is over
+		if t := tokenize(); t != nil {
+			ctx, cancel := context.WithCancel(context.Background())
+			_, _ = s.p.ParseContextFromModelTokens(ctx, t)
+			cancel()
 		}
 	case "parse-pos":
 		if t := tokenize(); t != nil {
